@@ -179,13 +179,34 @@ where
                 std::thread::sleep(Duration::from_millis(200));
                 if start.elapsed() > limit {
                     println!(
-                        "[avm] {} stream {}: {} worker(s) still inside a case {:.0} s after the start (budget {:.0} s): a call into anthem does not return; no verdict from this check (termination is decided by C16 and C18)",
+                        "[avm] {} stream {}: {} worker(s) still inside a case {:.0} s after the start (budget {:.0} s): a call into anthem does not return",
                         cfg.prop,
                         stream,
                         cfg.threads as u64 - finished_workers.load(Ordering::Relaxed),
                         start.elapsed().as_secs_f64(),
                         budget.as_secs_f64()
                     );
+                    kill_children();
+                    // violations recorded by finished cases are not lost
+                    let early = std::mem::take(&mut *EARLY_VIOLATIONS.lock().unwrap());
+                    let known = load_known(cfg);
+                    let unlisted: Vec<&Violation> = early.iter().filter(|v| !known.iter().any(|k| k.property == cfg.prop && k.status == "open" && k.class == v.class)).collect();
+                    if let Some(v) = unlisted.first() {
+                        let rdir = cfg.verif_dir.join("replays").join(&cfg.prop);
+                        let _ = std::fs::create_dir_all(&rdir);
+                        let path = rdir.join(format!("{}-seed{}-abandoned-0.json", tier_name(cfg.tier), cfg.seed));
+                        let j = J::obj()
+                            .set("property", J::s(&cfg.prop))
+                            .set("class", J::s(&v.class))
+                            .set("summary", J::s(&v.summary))
+                            .set("case", J::obj().set("stream", J::s(&v.stream)).set("index", J::Int(v.idx as i64)).set("seed", J::Int(cfg.seed as i64)).set("tier", J::s(tier_name(cfg.tier))).set("scale", J::s(format!("{}", cfg.scale))))
+                            .set("detail", v.detail.clone());
+                        let _ = std::fs::write(&path, j.pretty());
+                        println!("[avm] {} violation(s) had been recorded before the run was abandoned; first: [{}] {}", unlisted.len(), v.class, v.summary);
+                        println!("VIOLATION property={} replay={}", cfg.prop, path.display());
+                        std::process::exit(1);
+                    }
+                    println!("[avm] no verdict from this check (termination is decided by C16 and C18)");
                     std::process::exit(2);
                 }
             }
@@ -195,6 +216,7 @@ where
                 .stack_size(256 << 20)
                 .spawn_scoped(s, || {
                     let mut st = Stats::default();
+                    let mut mirrored = 0usize;
                     loop {
                         if stop.load(Ordering::Relaxed) {
                             break;
@@ -214,6 +236,10 @@ where
                         let r = std::panic::catch_unwind(std::panic::AssertUnwindSafe(|| {
                             case(idx, &mut rng, &mut st);
                         }));
+                        if st.violations.len() > mirrored {
+                            EARLY_VIOLATIONS.lock().unwrap().extend(st.violations[mirrored..].iter().cloned());
+                            mirrored = st.violations.len();
+                        }
                         if let Err(e) = r {
                             let msg = e
                                 .downcast_ref::<String>()
@@ -236,6 +262,28 @@ where
     t.add(&format!("cases_{stream}"), next.load(Ordering::Relaxed).min(max_cases));
     t
 }
+
+/// process ids of the children that are running right now (anthem binaries, stand-in provers);
+/// when a run is abandoned they are killed, so that a non-terminating child is not left behind
+static CHILDREN: Mutex<BTreeSet<u32>> = Mutex::new(BTreeSet::new());
+
+pub fn child_started(pid: u32) {
+    CHILDREN.lock().unwrap().insert(pid);
+}
+
+pub fn child_finished(pid: u32) {
+    CHILDREN.lock().unwrap().remove(&pid);
+}
+
+pub fn kill_children() {
+    for pid in CHILDREN.lock().unwrap().iter() {
+        let _ = std::process::Command::new("kill").arg("-9").arg(pid.to_string()).status();
+    }
+}
+
+/// violations of finished cases, mirrored so that the watchdog of `parallel` can still report
+/// them when it abandons a run
+static EARLY_VIOLATIONS: Mutex<Vec<Violation>> = Mutex::new(Vec::new());
 
 /// (stream, index) recorded in a replay file
 pub fn replay_case(p: &std::path::Path) -> Option<(String, u64)> {
